@@ -18,6 +18,11 @@ THEOREMS = [
   ("C07_array_add", "it_add_spec", "add after a yield: inserted at the cursor, cursor steps over it, suffix unchanged; refused growth: nothing moves"),
   ("C07_array_replace_index", "it_replace_spec", "replace and index refer to the yielded element's position"),
   ("C07_array_zip_next", "zip_next_spec", "zip: lockstep, stops at the shorter array"),
+  ("C07_array_zip_remove", "zip_remove_spec", "zip remove after a yield: exactly the yielded pair leaves both arrays, the traversal continues with the unvisited pairs"),
+  ("C07_array_zip_remove_twice", "zip_remove_twice", "zip remove twice without a new yield is refused"),
+  ("C07_array_zip_replace", "zip_replace_spec", "zip replace after a yield: the yielded pair is overwritten in place in both arrays, nothing else changes"),
+  ("C07_array_zip_range", "zip_mutators_range", "zip remove/replace before any yield or beyond the shorter array are refused and change nothing"),
+  ("C07_array_zip_add", "zip_add_spec", "zip add after a yield: both arrays receive their element at the cursor and the cursor steps over the pair; a refused allocation leaves both contents and the cursor unchanged"),
   ("C07_deque_next", "Deque:iter_next_refines", "CC_Deque / CC_Queue, every layout"),
   ("C07_deque_fresh_complete", "Deque:iter_fresh_complete", "including exactly full and wrapped deques"),
   ("C07_deque_remove", "Deque:iter_remove_refines", ""),
